@@ -464,6 +464,10 @@ func (el *eventloop) ticker() {
 	el.nextTicker = now.Add(time.Second)
 
 	if EngineGlobal.ClusterNodes.serverChanged {
+		// taken down before anything is read: a description the refresh goroutine publishes while this
+		// one is being loaded raises the flag again and is loaded by the next tick. (Taken down at the
+		// end, that flag was lost and the pools / slot table stayed on a mixture of the two.)
+		EngineGlobal.ClusterNodes.serverChanged = false
 		logging.Infof("[server changed] start load new server, old redis nodes: %+v", EngineGlobal.ProxyAddrs)
 
 		for k, v := range EngineGlobal.ProxyPool {
@@ -500,7 +504,6 @@ func (el *eventloop) ticker() {
 			EngineGlobal.ProxyAddrs = append(EngineGlobal.ProxyAddrs, k)
 		}
 
-		EngineGlobal.ClusterNodes.serverChanged = false
 		logging.Infof("[server changed] end load new server, cost: %s, new redis nodes: %+v", time.Since(now), EngineGlobal.ProxyAddrs)
 	}
 
